@@ -263,11 +263,8 @@ class Run(object):
         self.cur[kx] = [(filt(body_x), False, 2, pre_x)]
         self.cur[ky] = [(filt(body_y), False, 2, pre_y)]
         self.pair_keys = {-98: kx, -97: ky}
-        out4 = self.check.iffi.new('int[4]')
-        r = self.check.ftmod.lib.ft_gated_pair(self.drv.cb, pre_x, pre_y, xp_x, xp_y, first, out4)
+        out4 = self.drv.gated_pair(-98, -97, pre_x, pre_y, xp_x, xp_y, first)
         self.pair_keys = None
-        if r != 0:
-            raise HarnessError('gated pair helper returned %d' % r)
         self.out.fault('two_callbacks_entered_before_either_holds_the_GIL')
         if self.violation is None:
             for name, k, pre, res, seen in (('first', kx, pre_x, out4[0], out4[1]), ('second', ky, pre_y, out4[2], out4[3])):
@@ -409,9 +406,6 @@ class C22(core.Check):
         self.abi_lib = _verif_errno_abi.ffi.dlopen(_verif_errno.__file__)
         self.addr_probe = self.mod.ffi.addressof(self.mod.lib, 'probe')
         self.addr_via_cb = self.mod.ffi.addressof(self.mod.lib, 'via_cb')
-        import ctypes, _cffi_backend
-        shim = ctypes.PyDLL(_cffi_backend.__file__)
-        self.ftmod.lib.ft_set_gate_fn(ctypes.cast(shim.cffi_verif_arm_gate, ctypes.c_void_p).value)
         self.active = variant
         self.next_fid = 0
         self.gv_value = 7
